@@ -70,6 +70,25 @@ func validateJSONPatches(patches []byte) error {
 		if strings.HasPrefix(path, "/"+document.PublicKeyProperty) {
 			return fmt.Errorf("%s: cannot modify public keys", patch.JSONPatch)
 		}
+
+		if fromMsg, ok := p["from"]; ok && fromMsg != nil {
+			var from string
+			if err := json.Unmarshal(*fromMsg, &from); err != nil {
+				return fmt.Errorf("%s: invalid from", patch.JSONPatch)
+			}
+
+			if strings.HasPrefix(from, "/"+document.ServiceProperty) {
+				return fmt.Errorf("%s: cannot modify services", patch.JSONPatch)
+			}
+
+			if strings.HasPrefix(from, "/"+document.PublicKeyProperty) {
+				return fmt.Errorf("%s: cannot modify public keys", patch.JSONPatch)
+			}
+
+			if path == from || strings.HasPrefix(path, from+"/") {
+				return fmt.Errorf("%s: cannot move or copy a value into itself", patch.JSONPatch)
+			}
+		}
 	}
 
 	return nil
